@@ -287,7 +287,7 @@ Lemma fill_seq last ll' h' names : 1 <= last <= w -> forall k seq data,
   = option_map (app (wrap w seq)) (fasta_fill ll' h' names data).
 Proof.
   intros Hl. induction k as [|k IH]; intros seq data Hlen.
-  - cbn [repeat app fasta_fill].
+  - cbn [repeat app fasta_fill]. unfold m_fasta_body_len.
     assert (Hs : len seq = last) by lia.
     assert (Hne : seq <> []) by (intros E; rewrite E in Hs; cbn in Hs; lia).
     replace (1 <=? last + 1) with true by (symmetry; apply Z.leb_le; lia).
@@ -299,7 +299,7 @@ Proof.
     replace (Z.to_nat last - length seq)%nat with O by lia.
     rewrite firstn_all2 by lia. rewrite skipn_all2 by lia. cbn [firstn skipn app]. rewrite app_nil_r.
     rewrite wrap_short; [reflexivity|lia|exact Hne|unfold len; lia].
-  - cbn [repeat app fasta_fill].
+  - cbn [repeat app fasta_fill]. unfold m_fasta_body_len.
     assert (Hge : w + 1 <= len seq) by nia.
     assert (Hne : seq <> []) by (intros E; rewrite E in Hge; cbn in Hge; lia).
     replace (1 <=? w + 1) with true by (symmetry; apply Z.leb_le; lia).
@@ -417,7 +417,7 @@ Proof. revert o; induction nls as [|n r IH]; intros o; [reflexivity|]. cbn. f_eq
 Theorem fasta_fixed_layout_good es : Forall good es ->
   fasta_from_data_fixed w es = Some (concat (map fasta_rec es)).
 Proof.
-  intros Hg. unfold fasta_from_data_fixed.
+  intros Hg. unfold fasta_from_data_fixed, m_fasta_n_lines, m_fasta_last_length, m_fasta_total, m_fasta_fill, m_fasta_first_start, m_fasta_entry_step, m_fasta_has_lines, m_fasta_last_index, m_fasta_last_value, m_fasta_hdr_value, fasta_line_lengths, m_fasta_last_before_header.
   replace (map (fun L => (L - 1) / w + 1) (map (fun e : list Z * list Z => len (snd e)) es))
     with (map nle es) by (rewrite map_map; reflexivity).
   replace (map (fun n => n + 2) (map (fun e : list Z * list Z => len (fst e)) es))
@@ -543,7 +543,7 @@ Qed.
 Theorem fasta_fixed_layout es :
   fasta_from_data_fixed w es = Some (concat (map fasta_rec es)).
 Proof.
-  unfold fasta_from_data_fixed.
+  unfold fasta_from_data_fixed, m_fasta_n_lines, m_fasta_last_length, m_fasta_total, m_fasta_fill, m_fasta_first_start, m_fasta_entry_step, m_fasta_has_lines, m_fasta_last_index, m_fasta_last_value, m_fasta_hdr_value, fasta_line_lengths, m_fasta_last_before_header.
   replace (map (fun L => (L - 1) / w + 1) (map (fun e : list Z * list Z => len (snd e)) es))
     with (map nle es) by (rewrite map_map; reflexivity).
   replace (map (fun n => n + 2) (map (fun e : list Z * list Z => len (fst e)) es))
